@@ -152,7 +152,11 @@ def _corrcoef(ex, args, kwargs, node):
 @lib('scipy.stats.f')
 def _stats_f(ex, args, kwargs, node):
   ts = []
-  for a in _flat(args, kwargs):
+  named = list(args)
+  for k in ('dfn', 'dfd'):
+    if k in kwargs:
+      named.append(kwargs[k])
+  for a in named:
     ts.extend(_enc(a))
   return VOpaque(uf('stats_f', ts, sort_named('Dist')), 'Dist')
 
